@@ -473,7 +473,7 @@ func (g *rgen) paramsEvent() chain.M {
 		return chain.M{"limit": limit, "timeLimited": tl, "period": period, "tbl": tbl, "active": true,
 			"deputy": depName, "fee": fee, "minAmt": int64(1), "maxAmt": int64(3), "minLock": int64(50), "maxLock": int64(100)}
 	}
-	x := g.rng.Intn(18)
+	x := g.rng.Intn(19)
 	if len(cur) < len(g.e.assets) && g.rng.Intn(2) == 0 {
 		x = 15 // some asset is delisted: list it again, with other limits
 	}
@@ -515,6 +515,11 @@ func (g *rgen) paramsEvent() chain.M {
 		}
 	case 17: // every asset delisted (the begin blocker then stops its window bookkeeping)
 		ps = chain.M{}
+	case 18: // time-limited with a time-based limit of ZERO: valid, and no incoming transfer may be
+		// opened or completed until the parameters change again (seed C04-s6 read 0 as "no cap")
+		if p, ok := ps[g.pick(g.e.assets)].(chain.M); ok {
+			p["timeLimited"], p["period"], p["tbl"] = true, int64(20+g.rng.Intn(60)), int64(0)
+		}
 	case 9: // swap range tightened to exactly 2 (transfers of 1 and 3 may be in flight)
 		for _, d := range g.e.assets {
 			if p, ok := ps[d].(chain.M); ok && g.rng.Intn(2) == 0 {
